@@ -2221,15 +2221,35 @@ func ruleAB2(c *Ctx) *rule {
 			switch {
 			case call.Common().StaticCallee() == findF:
 			case calleeName(call.Common()) == "path/filepath.Abs":
-				as := c.newSlicer()
-				as.depth = 0
-				ares := as.run(call.Common().Args[0])
-				if !ares.hasField("cli/app.Options.Spokfile") {
-					bad = "filepath.Abs of something other than Options.Spokfile"
+				// what is made absolute: the flag, or file.Find's result, and nothing computed from them
+				flag := false
+				for _, ao := range origins(call.Common().Args[0]) {
+					if u, isLoad := ao.(*ssa.UnOp); isLoad && u.Op == token.MUL && fieldKey(u.X) == "cli/app.Options.Spokfile" {
+						flag = true
+						continue
+					}
+					if aex, isEx := ao.(*ssa.Extract); isEx && aex.Index == 0 {
+						if ac, isCall := aex.Tuple.(*ssa.Call); isCall && ac.Common().StaticCallee() == findF {
+							continue
+						}
+					}
+					if ac, isCall := ao.(*ssa.Call); isCall {
+						bad = "the path is rewritten by " + calleeName(ac.Common()) + " before it is made absolute"
+					} else if aex, isEx := ao.(*ssa.Extract); isEx {
+						if ac, isCall := aex.Tuple.(*ssa.Call); isCall {
+							bad = "the path is rewritten by " + calleeName(ac.Common()) + " before it is made absolute"
+						}
+					} else if k, isConst := ao.(*ssa.Const); isConst && k.Value != nil {
+						bad = "filepath.Abs of a constant"
+					} else {
+						bad = "filepath.Abs of something other than Options.Spokfile or file.Find's result (" + condText(ao) + ")"
+					}
 				}
-				for _, nme := range ares.callNames() {
-					if nme != "(*github.com/FollowTheProcess/spok/file.Find" && !strings.HasSuffix(nme, "file.Find") && nme != "path/filepath.Abs" {
-						bad = "the path is rewritten by " + nme + " before it is made absolute"
+				if !flag && bad == "" {
+					as := c.newSlicer()
+					as.depth = 0
+					if !as.run(call.Common().Args[0]).hasField("cli/app.Options.Spokfile") {
+						bad = "filepath.Abs of something other than Options.Spokfile"
 					}
 				}
 			default:
